@@ -22,10 +22,9 @@ PROP = dict(
          "unified files are re-read once more when complete. Non-trivial: >= 2 flowing wells compared, dynamic and schedule "
          "comparisons both made; distinct = hash of (deck text, unit system)",
     stages=[
-        dict(harness="c05_restart", flavour="plain", cases={Q: 3000, T: 40000}, timeout={Q: 1200, T: 7200},
-             args=["skip=dyn:segment.rate.gas:FIELD,sched:seg.volume:FIELD,sched:conn.depth.msw,sched:group.injctl.resv_max_rate,sched:restart-time-of-day-lost,dyn:action.run_count,sched:group.inj.voidage_group,sched:restart-refused:well-without-control-mode,sched:action.keyword:FIELD,sched:action.keyword:LAB,sched:action.keyword:PVT-M,sched:well.prod.OilRate.number-and-udq-name"]),  # TEMPORARY-DEVELOPMENT-FILTER
+        dict(harness="c05_restart", flavour="plain", cases={Q: 2400, T: 30000}, timeout={Q: 1200, T: 7200}),
     ],
-    min_nontrivial={Q: 1500, T: 20000},
+    min_nontrivial={Q: 1200, T: 15000},
     coverage_floor=[("c05_restart", "dynamic_comparisons", {Q: 2000000, T: 30000000}),
                     ("c05_restart", "schedule_field_comparisons", {Q: 1000000, T: 15000000}),
                     ("c05_restart", "restarted_schedules", {Q: 2000, T: 30000}),
